@@ -167,7 +167,7 @@ pub fn out_datum_hash(s: &mut Scen, r: &mut Rng) -> bool {
 pub fn fee_edge(s: &mut Scen, r: &mut Rng) -> bool {
     if !shelley(s) { return false }
     let f = s.fee();
-    let v = match r.below(7) { 0 => 0, 1 => f.wrapping_sub(1), 2 => f + 1, 3 => u64::MAX, 4 => 1 << 63, 5 => f / 2, _ => edge_amount(r) };
+    let v = match r.below(7) { 0 => 0, 1 => f.wrapping_sub(1), 2 => f.wrapping_add(1), 3 => u64::MAX, 4 => 1 << 63, 5 => f / 2, _ => edge_amount(r) };
     s.put(2, c_uint(v)); true
 }
 pub fn ttl_edge(s: &mut Scen, r: &mut Rng) -> bool {
@@ -529,6 +529,13 @@ pub fn resign(s: &mut Scen, r: &mut Rng) -> bool {
             }
         }
     }
+    // required signers must have a witness over the new body too: they become the fresh key
+    // (phase-1 validation does not run the scripts that asked for them)
+    if let Some(raw) = s.get(14).cloned() {
+        let (tag, _) = untag(&raw);
+        let a = c_array(&[c_bytes(&kh)]);
+        s.put(14, if tag.is_some() { c_tag(258, &a) } else { a });
+    }
     let body_hash = Hasher::<256>::hash(&s.body_bytes());
     let sig = sk.sign(body_hash.as_ref()).as_ref().to_vec();
     let (t, old) = vkeys(s);
@@ -721,6 +728,8 @@ pub fn all_mutators() -> Vec<(&'static str, Mutator)> {
         ("b_utxo_amount", b_utxo_amount), ("b_utxo_remove", b_utxo_remove), ("b_in_add", b_in_add), ("b_utxo_addr", b_utxo_addr),
         ("asset_pair_overflow", asset_pair_overflow), ("cert_inject", super::vcert::cert_inject), ("cert_inject", super::vcert::cert_inject),
         ("cert_two_registrations", super::vcert::cert_two_registrations), ("cstate_edit", super::vcert::cstate_edit), ("cstate_edit", super::vcert::cstate_edit),
-        ("acnt_edge", super::vcert::acnt_edge), ("cert_pp_edge", super::vcert::cert_pp_edge), ("cert_slot_edge", super::vcert::cert_slot_edge), ("cert_retire_edge", super::vcert::cert_retire_edge), ("cert_gendeleg_edge", super::vcert::cert_gendeleg_edge), ("sh_counts", sh_counts), ("b_wit_len_consistent", b_wit_len_consistent), ("b_wit_len", b_wit_len), ("b_wit_flip", b_wit_flip), ("b_wit_remove", b_wit_remove), ("b_wit_swap_kind", b_wit_swap_kind),
+        ("acnt_edge", super::vcert::acnt_edge), ("cert_pp_edge", super::vcert::cert_pp_edge), ("cert_slot_edge", super::vcert::cert_slot_edge), ("cert_retire_edge", super::vcert::cert_retire_edge), ("mint_boundary", super::vm2::mint_boundary), ("mint_boundary", super::vm2::mint_boundary),
+        ("qty_boundary", super::vm2::qty_boundary), ("native_script_inject", super::vm2::native_script_inject), ("native_script_inject", super::vm2::native_script_inject),
+        ("addr_tiny", super::vm2::addr_tiny), ("addr_tiny", super::vm2::addr_tiny), ("cert_gendeleg_edge", super::vcert::cert_gendeleg_edge), ("sh_counts", sh_counts), ("b_wit_len_consistent", b_wit_len_consistent), ("b_wit_len", b_wit_len), ("b_wit_flip", b_wit_flip), ("b_wit_remove", b_wit_remove), ("b_wit_swap_kind", b_wit_swap_kind),
     ]
 }
